@@ -1893,11 +1893,28 @@ func c02Rpc(r *core.Run) {
 					o.Fail(p.InstrPos(c), "the timeout interceptor is built but not added to the server")
 				}
 				positive := core.Cmp(token.GTR, core.FieldLoad("ServerConfig.Timeout"), core.IsConstInt(0))
-				hold, _ := core.EdgesOf(f, positive)
+				hold, fails := core.EdgesOf(f, positive)
 				if len(hold) > 0 {
 					if w, ok := core.Reach(core.Q{From: c02Heads(hold), Target: core.IsReturn, Blocked: core.Is(c)}); ok {
 						o.Fail(p.InstrPos(w), "Timeout > 0 but a path skips installing the timeout interceptor")
 					}
+				}
+				// installation must not depend on anything but Timeout > 0: from the entry, with the
+				// Timeout <= 0 edges removed, every nil-error return passes the installation
+				okRet := func(in ssa.Instruction) bool {
+					ret, isRet := in.(*ssa.Return)
+					if !isRet {
+						return false
+					}
+					for i := range ret.Results {
+						if ret.Results[i].Type().String() == "error" && !core.IsNil(core.Result(ret, i)) {
+							return false
+						}
+					}
+					return true
+				}
+				if w, ok := core.Reach(core.Q{From: []core.At{core.Entry(f)}, Target: okRet, Blocked: core.Is(c), Cut: core.CutSet(fails)}); ok {
+					o.Fail(p.InstrPos(w), "a configuration with Timeout > 0 reaches a successful return without the timeout interceptor (its installation is nested under an unrelated condition)")
 				}
 			}
 		}
